@@ -110,11 +110,14 @@ def _path_worker(args):
     return export, final, list(decisions), time.time() - t
 
 
-def explore_parallel(ses, modname, fname, payload, processes=None, max_paths=600):
+def explore_parallel(ses, modname, fname, payload, processes=None, max_paths=300, budget_s=None):
     """Run fname(payload, decisions) -> (session export, final decision list) for every path of a unit.
     New prefixes are scheduled as soon as a path reports the forks it met."""
     processes = processes or max(1, (os.cpu_count() or 2))
     n_paths = 0
+    budget_s = budget_s or float(os.environ.get("PYVC_UNIT_BUDGET", 900 if ses.tier == "quick" else 3600))
+    t_start = time.time()
+    over = None
     if processes <= 1 or os.environ.get("PYVC_SERIAL"):
         stack = [[]]
         while stack:
@@ -147,8 +150,19 @@ def explore_parallel(ses, modname, fname, payload, processes=None, max_paths=600
                         break
                     nxt.append(pool.apply_async(_path_worker, ((modname, fname, payload, final[:i] + [False]),)))
             pending = nxt
+            if time.time() - t_start > budget_s:
+                over = f"time budget of {budget_s:.0f}s exceeded after {n_paths} paths"
+                pool.terminate()
+                break
+            if n_paths + len(pending) > max_paths:
+                over = f"more than {max_paths} paths"
+                pool.terminate()
+                break
             if not progressed:
                 time.sleep(0.02)
-    if n_paths > max_paths:
-        ses.undecided(f"{payload.get('prop')}/{payload.get('unit')}/paths", f"more than {max_paths} paths")
+    if over:
+        # on the unchanged tree every unit is explored completely within these limits: exceeding them means the code
+        # left the subset the verifier decides
+        ses.not_proved(f"{payload.get('prop')}/{payload.get('unit')}/within-verified-subset", over,
+                       function=payload.get("unit"))
     return n_paths
